@@ -34,21 +34,22 @@ def occurrence_candidates(spec, job, up, starts):
     """all candidate occurrence series of `job` in pattern `up` given the UTC starts (one per admissible choice of floors)"""
     O = spec["objects"]
     delay = Fraction(0)
-    positions = []     # list of candidate-shift sets, one per appearance of the job
+    positions = []     # one (candidate shifts, multiplicity) per step occurrence containing the job: the library computes the
+    mult = 0           # delay once per step, so all appearances of the job inside one step share the same floor
     for st in O[O[up]["params"]["usage_journey"][1]]["params"]["uj_steps"][1]:
-        for j in O[st]["params"]["jobs"][1]:
-            if j == job:
-                positions.append(sorted(int_candidates(delay, math.floor)))
+        k = sum(1 for j in O[st]["params"]["jobs"][1] if j == job)
+        if k:
+            positions.append((sorted(int_candidates(delay, math.floor)), k)); mult += k
         delay += hours(O[st]["params"]["user_time_spent"])
     if not positions:
         return None, 0
     out = []
-    for combo in itertools.islice(itertools.product(*positions), 64):
+    for combo in itertools.islice(itertools.product(*[p[0] for p in positions]), 4096):
         occ = {}
-        for sh in combo:
-            occ = add(occ, shift(starts, sh))
+        for sh, (_, k) in zip(combo, positions):
+            occ = add(occ, shift(starts, sh), float(k))
         out.append(occ)
-    return out, len(positions)
+    return out, mult
 
 
 def avg_candidates(occ, d):
